@@ -52,7 +52,7 @@ func verifyUnit(p *Program, u *Unit) (res *UnitResult) {
 	}
 	// receiver
 	if u.Recv != nil {
-		v := r.symbolic(st, u.Recv.Type(), u.Recv.Name(), own)
+		v := r.symbolicParam(st, u.Recv.Type(), u.Recv.Name(), own)
 		if v.K == KRef {
 			st.assume(not(eq(v.T, p.World.nilOf(v.Sort))))
 			r.assumption("method receivers are non-nil")
@@ -66,7 +66,7 @@ func verifyUnit(p *Program, u *Unit) (res *UnitResult) {
 		if u.Takes[pv.Name()] {
 			o = OwnTaken
 		}
-		v := r.symbolic(st, pv.Type(), pv.Name(), o)
+		v := r.symbolicParam(st, pv.Type(), pv.Name(), o)
 		st.bind(pv, v)
 		r.paramVal[pv.Name()] = v
 	}
@@ -89,7 +89,7 @@ func verifyUnit(p *Program, u *Unit) (res *UnitResult) {
 			if u.Takes[cv.Name()] {
 				o = OwnTaken
 			}
-			v := r.symbolic(st, cv.Type(), cv.Name(), o)
+			v := r.symbolicParam(st, cv.Type(), cv.Name(), o)
 			st.bind(cv, v)
 			r.paramVal[cv.Name()] = v
 		}
@@ -110,6 +110,8 @@ func verifyUnit(p *Program, u *Unit) (res *UnitResult) {
 			}
 		}
 	}
+	// ghost abstract index of the element generator in use (DESIGN.md 3.3)
+	st.ghost["genJ"] = Val{K: KRef, T: r.fresh("genJ", idxSort), Sort: idxSort}
 	r.entry = st.clone()
 	// axioms of the package
 	envA := &SpecEnv{run: r, st: st, old: r.entry, bound: map[string]Val{}}
@@ -142,6 +144,12 @@ func verifyUnit(p *Program, u *Unit) (res *UnitResult) {
 		envI := &SpecEnv{run: r, st: st, old: r.entry, bound: map[string]Val{"self": self}}
 		for _, c := range au.Requires {
 			st.assume(r.specBool(envI, c, "call-state protocol of "+au.Name))
+		}
+		for _, c := range u.Yields {
+			st.assume(r.specBool(envI, c, "yields of "+u.Name))
+		}
+		for _, c := range u.Invariant {
+			st.assume(r.specBool(envI, c, "closure invariant of "+u.Name))
 		}
 	}
 	env := &SpecEnv{run: r, st: st, old: r.entry, bound: map[string]Val{}}
@@ -340,7 +348,7 @@ func verifyLemma(p *Program, ax Axiom) *UnitResult {
 func (r *UnitRun) extraDeclText() string {
 	var b strings.Builder
 	for _, k := range r.needOrd {
-		b.WriteString(extraDecls[k])
+		b.WriteString(r.extra[k])
 		b.WriteString("\n")
 	}
 	return b.String()
@@ -354,15 +362,9 @@ func (o *Obligation) smtMode(withModel, groundOnly bool) string {
 	r := o.run
 	var b strings.Builder
 	b.WriteString("(set-option :produce-models true)\n(set-logic ALL)\n")
-	wd := r.prog.World.decls.dump()
-	if strings.Contains(wd, "(assert") {
-		// world-level text is shared by every query; an axiom there would make a query depend on which units were
-		// processed earlier (order-dependent, hence unstable, results)
-		panic("qv internal error: world-level declarations contain an assertion")
-	}
-	b.WriteString(wd)
-	b.WriteString(r.extraDeclText())
-	b.WriteString(r.decls.dump())
+	var body strings.Builder
+	body.WriteString(r.extraDeclText())
+	body.WriteString(r.decls.dump())
 	gdecl, gextra, goal := "", []string(nil), o.Goal
 	var replaced []bool
 	if o.Kind != "canary" {
@@ -371,23 +373,24 @@ func (o *Obligation) smtMode(withModel, groundOnly bool) string {
 	if groundOnly && len(gextra) == 0 {
 		return ""
 	}
-	b.WriteString(gdecl)
+	var asserts strings.Builder
+	asserts.WriteString(gdecl)
 	for i, f := range o.Facts {
 		if groundOnly && replaced != nil && replaced[i] {
 			continue
 		}
-		b.WriteString("(assert ")
-		b.WriteString(f)
-		b.WriteString(")\n")
+		asserts.WriteString("(assert ")
+		asserts.WriteString(f)
+		asserts.WriteString(")\n")
 	}
 	for _, f := range gextra {
-		b.WriteString("(assert ")
-		b.WriteString(f)
-		b.WriteString(")\n")
+		asserts.WriteString("(assert ")
+		asserts.WriteString(f)
+		asserts.WriteString(")\n")
 	}
-	b.WriteString("(assert (not ")
-	b.WriteString(goal)
-	b.WriteString("))\n(check-sat)\n")
+	asserts.WriteString("(assert (not ")
+	asserts.WriteString(goal)
+	asserts.WriteString("))\n(check-sat)\n")
 	if withModel {
 		var terms []string
 		for _, k := range sortedKeys(o.Vars) {
@@ -397,9 +400,18 @@ func (o *Obligation) smtMode(withModel, groundOnly bool) string {
 			terms = append(terms, o.Vars[k])
 		}
 		if len(terms) > 0 {
-			b.WriteString("(get-value (" + strings.Join(terms, " ") + "))\n")
+			asserts.WriteString("(get-value (" + strings.Join(terms, " ") + "))\n")
 		}
 	}
+	// world-level declarations: only those this query mentions, in an order fixed by that set (a query must not
+	// depend on which units were processed earlier); world-level text never contains assertions
+	wd := r.prog.World.decls.prunedDump(body.String() + asserts.String())
+	if strings.Contains(wd, "(assert") {
+		panic("qv internal error: world-level declarations contain an assertion")
+	}
+	b.WriteString(wd)
+	b.WriteString(body.String())
+	b.WriteString(asserts.String())
 	return b.String()
 }
 
